@@ -31,7 +31,7 @@ CHECKS = {
          "For a fixed 12-entry transfer every operation index of every fault class is enumerated (stream send/recv error and EOF on both endpoints, cancellation of either context, walk error, an entry vanishing between listing and lstat, an unreadable source root, read error at 5 offsets, hasher/notify error, SIGKILL of the receiver after k packets), plus sampled faults with >132 requests pending. No stream operation may start on an endpoint after its call returned. Termination is decided structurally (teardown once, quiescence afterwards = violation), never by a timer. Held on the fault runs observed; plans whose operation was never reached are reported as not fired.",
          "fsutil uses no timers (a quiescent process cannot progress on its own); teardown = both directions fail, and - in one of the two runs of every plan - both contexts cancelled (the other run keeps the contexts alive and uses a transport that ignores them); Open errors and receiver-side disk errors are not injected.", "DESIGN.md §5 C04, §4.7"),
  "C06": ("exploration", "online protocol monitor: an independent reference receiver (written from the protocol text) drives the real Send with request scripts and checks every emitted packet; progress callbacks recorded",
-         "Source views x request scripts (any subset/order, bursts >132, requests racing the STAT stream, duplicate/unknown/non-file ids) x stream capacities and delays; STAT sequence compared with the independent snapshot, DATA reassembled per id and compared with the file bytes. Held on the sessions observed.",
+         "Source views x request scripts (any subset/order, bursts >132, requests racing the STAT stream, duplicate/unknown/non-file ids, a sequential receiver that writes all requests before it reads on - known finding K11), disk-backed fan-out views under a descriptor limit x stream capacities and delays; STAT sequence compared with the independent snapshot, DATA reassembled per id and compared with the file bytes. Held on the sessions observed.",
          "Trusts the reference receiver (refrecv.go) to be conforming; ids are zero-based STAT positions per receive.go's header.", "DESIGN.md §5 C06, §4.4"),
  "C07": ("exploration", "online protocol monitor: an independent reference sender announces synthetic STAT sequences to the real Receive with seeded chunkings/interleavings; REQ/FIN ordering decided on the receiver-side event log; dest bytes read at the instant FIN arrives",
          "STAT sequences (incl. fan-out of 350-900 files announced before the first answer) x prior destinations (incl. a directory of 140-400 entries that the sequence replaces by a looping / unenterable symlink) x DATA chunkings (1 B .. 1 MiB) x id interleavings x STAT/DATA races x early close x receiver options {rejecting Filter, unprivileged receiver}; REQ set compared with the identity model, final dest with the announced tree. Held on the sessions observed.",
